@@ -324,39 +324,43 @@ theorem stored_not_plaintext (E : Env T T A R) (hne : ∀ s p, E.hash s p ≠ p)
 
 /-! ## 5. noninterference -/
 
-/-- **noninterference_partial.** Jar `j` uses account names from a set `S` only (in `register`,
-`login`, `update`, and the generated names of its temporary accounts), all other jars use names
-outside `S` only.  Then, for every interleaving of everybody's requests and background-task events,
-what `j` observes — the responses to its requests, in order — is exactly what it would observe if
-only its own events happened.
+/-- **noninterference_partial.** Account names are used with discipline as far as jar `j` is
+concerned (`Disciplined`): mentioning a name (in `register`, `login`, `update`, or as the generated
+name of a temporary account) claims it; `j` mentions a name only if it claimed it last itself or
+nothing of that name exists any more — no account, no problem, no running entry, no session, no
+unfinished task — and the others mention a name that `j` claimed last only when nothing of it exists
+any more.  Then, for every interleaving of everybody's requests and background-task events, what `j`
+observes — the responses to its requests, in order — is exactly what it would observe if only its
+own events happened.
 
-Partial w.r.t. the property's sentence "apart from account names being unique, each user's
-observable history is what it would be if that user were alone":
-* the hypothesis is the *static* form of "no account name is re-used while sessions or tasks of its
-  previous owner exist" (a name used by `j` is never used by anybody else, at any time); re-use
-  after the previous owner is completely gone is not covered;
-* name-uniqueness conflicts (two users competing for a name) are excluded by the hypothesis rather
-  than treated as permitted differences;
-* requests are atomic here (isolation at command granularity is `isolation_commands`).
-That the hypothesis cannot simply be dropped is shown by `stale_cookie_interferes` and
-`late_write_interferes` (D9) below. -/
-theorem noninterference_partial (E : Env T H A R) (S : T → Bool) (j : Nat) (es : List (Event T))
+This is the property's "no account name is re-used while sessions/tasks of its previous owner
+exist".  Partial w.r.t. "apart from account names being unique, each user's observable history is
+what it would be if that user were alone":
+* name-uniqueness conflicts (somebody trying to take a name that is in use: the permitted `409`
+  difference) are excluded by the hypothesis instead of being treated as permitted differences;
+* a user is a cookie jar here; two jars logging into the same account are one user of the property
+  and are excluded by the hypothesis as well;
+* requests are atomic (isolation at command granularity is `isolation_commands`).
+That the hypothesis cannot be dropped is shown by `stale_cookie_interferes` and
+`late_write_interferes` (D9) below: in both, a name is re-used while a session resp. an unfinished
+task of its previous owner still exists. -/
+theorem noninterference_partial (E : Env T H A R) (j : Nat) (es : List (Event T))
+    (h : Disciplined E j (fun _ => none) {} es) :
+    obs j (runAll E {} es).2 = obs j (runAll E {} (es.filter (fun e => decide (e.jar = j)))).2 :=
+  nonint_dyn E j es (fun _ => none) {} {} ⟨DbSim.refl .., rfl⟩
+    ⟨(by intro u hu; cases hu), (by intro k _ u hu; cases hu), (by intro t ht; cases ht)⟩
+    ⟨(by intro u hu; cases hu), (by intro k _ u hu; cases hu), (by intro t ht; cases ht)⟩
+    ⟨(by intro u hu; cases hu), (by intro p hp; cases hp), (by intro i hi; cases hi), (fun _ _ => rfl),
+     (by intro t ht; cases ht)⟩ h
+
+/-- the static special case: `j` uses names from a set `S` only, everybody else names outside `S`
+only (the others may interfere with each other as they like) -/
+theorem noninterference_static (E : Env T H A R) (S : T → Bool) (j : Nat) (es : List (Event T))
     (h : ∀ e ∈ es, (e.jar = j → e.namesIn S) ∧ (e.jar ≠ j → e.namesIn (fun x => !S x))) :
     obs j (runAll E {} es).2 = obs j (runAll E {} (es.filter (fun e => decide (e.jar = j)))).2 :=
   nonint_run E S j es {} {} ⟨DbSim.refl .., rfl⟩
     ⟨(by intro u hu; cases hu), (by intro k _ u hu; cases hu), (by intro t ht; cases ht)⟩
     ⟨(by intro u hu; cases hu), (by intro k _ u hu; cases hu), (by intro t ht; cases ht)⟩ h
-
-/-- the full statement (not proved; see the gap above): the hypothesis only forbids re-using a
-name while its previous owner still has a session, a problem, a running entry or an unwritten task -/
-def noninterference_statement (E : Env T H A R) (j : Nat) (es : List (Event T)) : Prop :=
-  (∀ (pre : List (Event T)) (e : Event T) (post : List (Event T)), es = pre ++ e :: post →
-    ∀ n ∈ (match e with | .req rq => reqNames rq.req | _ => []),
-      let st := (runAll E {} pre).1
-      -- `n` is free, or `e` is by the jar that holds `n`
-      (∀ k, k ≠ e.jar → st.sess k ≠ some n) ∧
-      (∀ t ∈ st.db.tasks, t.username = n → t.jar = e.jar ∨ (t.blockingDone = true ∧ t.written = true))) →
-  obs j (runAll E {} es).2 = obs j (runAll E {} (es.filter (fun e => decide (e.jar = j)))).2
 
 end
 
@@ -395,12 +399,41 @@ example : (step E0 (runAll E0 {} hist1).1 ⟨2, .login 100 7⟩).2 = ⟨400, .ke
 example : (runCred E0 {} (fun _ => none) hist1).2 1 = some 7 := by decide
 -- non-vacuity of `stored_is_hash`
 example : (runAll E0 {} hist1).1.db.users = [⟨1, some (0, 7)⟩, ⟨100, none⟩] := by decide
--- non-vacuity of `noninterference_partial`: S = {1}, jar 0; the hypothesis holds for `hist1`
+-- non-vacuity of `noninterference_static`: S = {1, 200}, jar 0; the hypothesis holds for `hist1`
 example : ∀ e ∈ hist1, (e.jar = 0 → e.namesIn (fun x => decide (x = 1 ∨ x = 200))) ∧
     (e.jar ≠ 0 → e.namesIn (fun x => !decide (x = 1 ∨ x = 200))) := by
   intro e he
   simp only [hist1, List.mem_cons, List.not_mem_nil, or_false] at he
   rcases he with h | h | h | h | h | h | h | h <;> subst h <;> simp [Event.jar, Event.namesIn, reqNames]
+
+/-- legitimate re-use: alice (jar 0) deletes her account after her task is done; only then does
+somebody else (jar 1) register `alice`.  The discipline holds for both jars although the name moves. -/
+def histReuse : List (Event Nat) :=
+  [.req ⟨0, .register 1 7 0⟩, .req ⟨0, .login 1 7⟩, .req ⟨0, .add 5 (some 9) none .naive 200 201⟩,
+   .finish 0 0, .write 0 0, .req ⟨0, .deleteAccount⟩,
+   .req ⟨1, .register 1 8 1⟩, .req ⟨1, .login 1 8⟩, .req ⟨1, .list⟩]
+
+theorem free_after_delete : Free (1 : Nat) (runAll E0 {} (histReuse.take 6)).1 := by
+  refine ⟨by decide, by decide, by decide, ?_, by decide⟩
+  intro k
+  have : ∀ k, (runAll E0 {} (histReuse.take 6)).1.sess k = none := by
+    intro k
+    simp [histReuse, runAll, stepEv, step, stepT, applyCookie, dbEv]
+    split <;> rfl
+  rw [this k]; simp
+
+-- non-vacuity of `noninterference_partial`: the discipline holds for jar 1 in `histReuse`
+example : Disciplined E0 1 (fun _ => none) {} histReuse := by
+  refine ⟨?_, ?_, ?_, ?_, ?_, ?_, ?_, ?_, ?_, trivial⟩
+  · intro n hn; simp [evNames, reqNames] at hn; subst hn; left; simp [Event.jar]
+  · intro n hn; simp [evNames, reqNames] at hn; subst hn; left; simp [Event.jar, evNames, reqNames]
+  · intro n hn; simp [evNames, reqNames] at hn; subst hn; left; simp [Event.jar, evNames, reqNames]
+  · intro n hn; simp [evNames] at hn
+  · intro n hn; simp [evNames] at hn
+  · intro n hn; simp [evNames, reqNames] at hn
+  · intro n hn; simp [evNames, reqNames] at hn; subst hn; right; exact free_after_delete
+  · intro n hn; simp [evNames, reqNames] at hn; subst hn; left; simp [Event.jar, evNames, reqNames]
+  · intro n hn; simp [evNames, reqNames] at hn
 
 /-- **Counterexample 1 (stale cookie).** Alice is logged in on two devices (jars 0 and 1) and deletes
 her account on the first; somebody else (jar 2) registers the name `alice` and adds a problem; the
